@@ -441,6 +441,7 @@ func registerIntrinsics(e *Engine) {
 	registerParseIntModels(e)
 	registerSwagConvertBool(e)
 	registerAtomicModels(e)
+	registerFormatBool(e)
 }
 
 // ---------------------------------------------------------------------------
